@@ -8,6 +8,8 @@ import shutil
 import tempfile
 
 import numpy as np
+
+from . import tlcrun
 import pandas as pd
 
 from .universe import flodym, Dimension, DimensionSet, FlodymArray
@@ -156,13 +158,13 @@ def run_import(vec):
                     target.set_values_from_df(df, allow_missing_values=missing, allow_extra_values=extra)
                     got = target.values
                 elif call == "excel_reader":
-                    tmp = tmp or tempfile.mkdtemp(prefix="flodym-verif-tab-")
+                    tmp = tmp or tlcrun.reused_scratch("flodym-verif-tab-")
                     path = os.path.join(tmp, "p.xlsx")
                     df.to_excel(path, index=any(n is not None for n in df.index.names))
                     reader = flodym.ExcelParameterReader(parameter_files={"p": path}, allow_missing_values=missing, allow_extra_values=extra)
                     got = reader.read_parameter_values("p", dims).values
                 else:
-                    tmp = tmp or tempfile.mkdtemp(prefix="flodym-verif-tab-")
+                    tmp = tmp or tlcrun.reused_scratch("flodym-verif-tab-")
                     path = os.path.join(tmp, "p.csv")
                     has_index = any(n is not None for n in df.index.names)
                     df.to_csv(path, index=has_index)
@@ -317,6 +319,20 @@ def run_vector(vec):
             problems = ["[items of every dimension listed in another order] " + p for p in fn(vec)]
         finally:
             DIMOBJ = DIMSETS[0]
+    elif not problems and (len(vec.get("rows", [])) + len(vec["ds"]) + vec.get("styleid", 0)) % 3 == 1:
+        # third concretisation: the SAME Dimension objects (just used above), their items replaced by the other item lists - by
+        # assignment or in place; whatever an object remembers about its items from the earlier import / export must not be used
+        saved = {l: list(d.items) for l, d in DIMOBJ.items()}
+        try:
+            for k, (l, d) in enumerate(DIMOBJ.items()):
+                if (k + len(vec["ds"])) % 2:
+                    d.items = list(DIMSETS[1][l].items)
+                else:
+                    d.items[:] = list(DIMSETS[1][l].items)
+            problems = ["[items of the same Dimension objects replaced after an earlier call] " + p for p in fn(vec)]
+        finally:
+            for l, d in DIMOBJ.items():
+                d.items = saved[l]
     return problems
 
 
